@@ -501,7 +501,11 @@ pub fn record(inp: &FInput, mask: &Option<Vec<bool>>, full_line: bool) -> (Optio
             }
             let n_out = if f.left() == i && !(f.right() == Some(i) && f.shift().is_none()) { nrm } else { -nrm };
             closure += f.area() * n_out;
-            div += f.area() * n_out.dot(f.centroid() - gi);
+            // the centroid of a face of negligible area is meaningless (reported as the origin when the area
+            // integral is not positive): such faces are left out of the divergence sum
+            if f.area() > tol_area.max(thr) {
+                div += f.area() * n_out.dot(f.centroid() - gi);
+            }
         }
         // in a partial build a selected cell still lists all its faces (faces towards unselected
         // neighbours are constructed by the selected cell), so the identities hold for every constructed cell
